@@ -57,10 +57,16 @@ def gen_hub(cls, rng, count, prefix="h"):
         n = rng.randint(2, 4)
         keys = rng.sample(range(1, 60), n)
         steps = ["new %d %d" % (k, rng.randint(-5, 5)) for k in keys]
-        for j in range(rng.randint(150, 400)):
-            u = rng.randrange(n)
-            v = u if rng.random() < 0.1 else rng.randrange(n)
-            steps.append("con %d %d %d" % (u, v, rng.randint(0, 50)))
+        if ci % 2:
+            # adjacency lists whose length sits exactly on, just below or just above a power of two (capacity boundaries)
+            for (u, v) in [(0, 1), (1, 0), (0, 0)][:rng.randint(1, 3)]:
+                for j in range(rng.choice([7, 8, 9, 15, 16, 17, 31, 32, 33, 63, 64, 65, 127, 128, 129])):
+                    steps.append("con %d %d %d" % (u, v, rng.randint(0, 50)))
+        else:
+            for j in range(rng.randint(150, 400)):
+                u = rng.randrange(n)
+                v = u if rng.random() < 0.1 else rng.randrange(n)
+                steps.append("con %d %d %d" % (u, v, rng.randint(0, 50)))
         steps.append("snap")
         for j in range(rng.randint(20, 50)):
             r = rng.random()
